@@ -13,7 +13,7 @@ natively), then excluded, and the remaining query must be unsat."""
 import os, re, json, time, subprocess
 import z3
 from common import (tier, log, write_evidence, known_findings, finish, repo_fingerprint, REPLAYS, REPO)
-from smt import Query, Inconclusive, build_native, run_native, read_repo, extract_fn, rust_str_literal
+from smt import Query, Inconclusive, build_native, run_native, read_repo, extract_fn, rust_str_literal, NATIVE as NATIVE_DIR
 
 PROP = "C12"
 F_RS = "crates/isograph_lang_types/src/declarations/selection_argument.rs"
@@ -81,6 +81,32 @@ def extract_rust():
     m = need(re.search(r'let mut s = name\.to_string\(\);\s*for param in parameters\.iter\(\) \{\s*s\.push_str\("((?:[^"\\]|\\.)*)"\);\s*s\.push_str\(&param\.to_alias_str_chunk\(\)\);\s*\}\s*s\s*\}', fn), "get_aliased_mutation_field_name shape")
     X["first_sep"] = rust_str_literal(m.group(1))
     return X
+
+
+F_TOK = "crates/isograph_lang_parser/src/token_kind.rs"
+
+
+def extract_lexer():
+    """what the iso lexer lets into a string literal: plain characters and two-character escapes"""
+    tok = read_repo(F_TOK)
+    m = need(re.search(r'#\[regex\(r#"\[((?:\\u[0-9A-Fa-f]{4}(?:-\\u[0-9A-Fa-f]{4})?)+)\]\+"#\)\]\s*StringCharacters,', tok), "StringCharacters token definition")
+    ranges = []
+    for a, b in re.findall(r"\\u([0-9A-Fa-f]{4})(?:-\\u([0-9A-Fa-f]{4}))?", m.group(1)):
+        ranges.append((int(a, 16), int(b, 16) if b else int(a, 16)))
+    m = need(re.search(r'#\[regex\(r#"\\\\\[((?:[^\]\\]|\\.)*)\]"#\)\]\s*EscapedCharacter,', tok), "EscapedCharacter token definition")
+    esc = []
+    body = m.group(1)
+    i = 0
+    while i < len(body):
+        if body[i] == "\\":
+            esc.append(body[i + 1]); i += 2
+        else:
+            esc.append(body[i]); i += 1
+    need(re.search(r"EscapedUnicode,", tok), "EscapedUnicode token")
+    return {"plain_ranges": ranges, "escapes": esc}
+
+
+JS_ESCAPE_VALUE = {'"': 0x22, "\\": 0x5C, "/": 0x2F, "b": 8, "f": 12, "n": 10, "r": 13, "t": 9}
 
 
 def extract_ts():
@@ -170,6 +196,7 @@ class SLeaf:
         self.kind = kind
         self.payload = []          # terms compared for structural equality
         self.names, self.ints, self.cps, self.slen = [], [], [], None
+        self.nonalnum, self.escaped = [], []
         if kind in ("var", "enum"):
             n = z3.String(pfx + "_n")
             q.add(z3.InRe(n, NAME_RE), z3.Length(n) <= B["namelen"])
@@ -197,25 +224,42 @@ class SLeaf:
             self.rust = S(X["null"])
             self.ts = cat(S(T["lit"]), S("null"))
         else:
-            # every character is a string variable of length 1 (SMT-LIB characters: code points 0..0x2FFFF,
-            # surrogates excluded), so that the dump stays portable (no int->char conversions)
+            # A string literal is a sequence of units: a plain character the lexer accepts (length-1 string variable), or a
+            # two-character escape \\x. The compiler keeps the raw text (both characters); the runtime sees the string after
+            # JavaScript has evaluated the emitted double-quoted literal (one character per escape).
+            LX = B["lexer"]
             self.slen = z3.Int(pfx + "_sl")
             self.cps = [z3.String("%s_c%d" % (pfx, i)) for i in range(B["strlen"])]
+            self.esc = [z3.Bool("%s_q%d" % (pfx, i)) for i in range(B["strlen"])]
+            self.ech = [z3.String("%s_e%d" % (pfx, i)) for i in range(B["strlen"])]
             q.add(self.slen >= 0, self.slen <= B["strlen"])
             keep_re = z3.Union(*[z3.Range(chr(lo), chr(hi)) for lo, hi in X["str_keep"]])
+            def u(cp):
+                return chr(cp) if 32 <= cp < 127 and chr(cp) not in '"\\' else "\\u{%x}" % cp
+            plain_re = z3.Union(*[z3.Range(u(lo), u(hi)) for lo, hi in LX["plain_ranges"]])
+            esc_re = z3.Union(*[z3.Range(u(ord(ch)), u(ord(ch))) for ch in LX["escapes"]])
             r, t = S(""), S("")
-            for i, c in enumerate(self.cps):
-                q.add(z3.Length(c) == 1, z3.Not(z3.InRe(c, SURROGATE_RE)))
-                q.add(z3.Implies(i >= self.slen, c == S("a")))
-                rr = S(T["str_repl"])
-                r = z3.If(i < self.slen, cat(r, z3.If(z3.InRe(c, keep_re), c, S(X["str_repl"]))), r)
+            rr = S(T["str_repl"])
+            self.nonalnum, self.escaped = [], []
+            prev_nonword = z3.BoolVal(False)
+            for i, (c, e, k) in enumerate(zip(self.cps, self.ech, self.esc)):
+                q.add(z3.Length(c) == 1, z3.InRe(c, plain_re), z3.Not(z3.InRe(c, SURROGATE_RE)))
+                q.add(z3.Length(e) == 1, z3.InRe(e, esc_re))
+                q.add(z3.Implies(i >= self.slen, z3.And(c == S("a"), z3.Not(k))))
+                q.add(z3.Implies(k, c == S("a")), z3.Implies(z3.Not(k), e == S("n")))
+                rust_unit = z3.If(k, cat(S(X["str_repl"]), z3.If(z3.InRe(e, keep_re), e, S(X["str_repl"]))),
+                                  z3.If(z3.InRe(c, keep_re), c, S(X["str_repl"])))
+                nonword = z3.Or(k, z3.Not(z3.InRe(c, WORD_RE)))        # every escape evaluates to a non-word character
                 if T.get("str_collapse"):
-                    # /\\W+/g: a maximal run of non-word UTF-16 units becomes one replacement
-                    prev_nonword = z3.BoolVal(False) if i == 0 else z3.Not(z3.InRe(self.cps[i - 1], WORD_RE))
-                    t = z3.If(i < self.slen, cat(t, z3.If(z3.InRe(c, WORD_RE), c, z3.If(prev_nonword, S(""), rr))), t)
+                    ts_unit = z3.If(nonword, z3.If(prev_nonword, S(""), rr), c)
                 else:
-                    t = z3.If(i < self.slen, cat(t, z3.If(z3.InRe(c, WORD_RE), c, z3.If(z3.InRe(c, ASTRAL_RE), cat(rr, rr), rr))), t)
-            self.payload += [self.slen] + self.cps
+                    ts_unit = z3.If(nonword, rr, c)
+                r = z3.If(i < self.slen, cat(r, rust_unit), r)
+                t = z3.If(i < self.slen, cat(t, ts_unit), t)
+                prev_nonword = z3.And(i < self.slen, nonword)
+                self.nonalnum.append(z3.And(i < self.slen, z3.Or(k, z3.Not(z3.InRe(c, ALNUM_RE)))))
+                self.escaped.append(z3.And(i < self.slen, k))
+            self.payload += [self.slen] + self.cps + self.ech + self.esc
             self.rust = cat(S(X["str"]), r)
             self.ts = cat(S(T["str"]), t)
 
@@ -272,11 +316,8 @@ class SSel:
 # ---------------------------------------------------------------- classes of known findings (as predicates)
 
 def cls_string_nonalnum(sel):
-    """a string literal containing a character outside [A-Za-z0-9] (rewritten by the sanitiser, or '_')"""
-    out = []
-    for l in sel.leaves:
-        for i, c in enumerate(l.cps):
-            out.append(z3.And(i < l.slen, z3.Not(z3.InRe(c, ALNUM_RE))))
+    """a string literal containing a character outside [A-Za-z0-9] (rewritten by the sanitiser, or '_'), escapes included"""
+    out = [x for l in sel.leaves for x in l.nonalnum]
     return z3.Or(*out) if out else z3.BoolVal(False)
 
 
@@ -291,8 +332,9 @@ def cls_negative_int(sel):
     return z3.Or(*out) if out else z3.BoolVal(False)
 
 
-def cls_astral(sel):
-    out = [z3.And(i < l.slen, z3.InRe(c, ASTRAL_RE)) for l in sel.leaves for i, c in enumerate(l.cps)]
+def cls_escape(sel):
+    """a string literal containing a backslash escape"""
+    out = [x for l in sel.leaves for x in l.escaped]
     return z3.Or(*out) if out else z3.BoolVal(False)
 
 
@@ -323,7 +365,10 @@ def leaf_json(m, l):
     if k == "null": return {"k": "null"}
     if k == "enum": return {"k": "enum", "n": ev(l.names[0]).as_string()}
     n = ev(l.slen).as_long()
-    return {"k": "str", "cp": [smt_char(ev(c)) for c in l.cps[:n]]}
+    raw = ""
+    for c, e, k in list(zip(l.cps, l.ech, l.esc))[:n]:
+        raw += ("\\" + chr(smt_char(ev(e)))) if z3.is_true(ev(k)) else chr(smt_char(ev(c)))
+    return {"k": "str", "raw": raw}
 
 
 def sel_json(m, sel):
@@ -348,40 +393,49 @@ def shape_of(pr):
     return tuple(("obj", tuple(e[1]["k"] for e in v["e"])) if v["k"] == "obj" else ("leaf", v["k"]) for _a, v in pr["args"])
 
 
-def to_ts_ast(sj):
-    def conv(v):
-        k = v["k"]
-        if k == "var": return {"kind": "Variable", "name": v["n"]}
-        if k == "int": return {"kind": "Literal", "value": {"__int": v["v"]}}
-        if k == "bool": return {"kind": "Literal", "value": v["v"]}
-        if k == "null": return {"kind": "Literal", "value": None}
-        if k == "enum": return {"kind": "Enum", "value": v["n"]}
-        if k == "str": return {"kind": "String", "value": {"__cp": v["cp"]}}
-        return {"kind": "Object", "value": [[e[0], conv(e[1])] for e in v["e"]]}
-    return {"fieldName": sj["field"], "arguments": [[a[0], conv(a[1])] for a in sj["args"]] or None}
-
-
-def run_ts(T, asts):
-    """Evaluate the real getNetworkResponseKey / getArgumentValueChunk text (types stripped) in node."""
+def run_ts(T, items):
+    """items: [(fieldName, norm_args_js)] where norm_args_js is the JavaScript text the real compiler emitted for the arguments.
+    Evaluates the real getNetworkResponseKey / getArgumentValueChunk text (types stripped) in node on the evaluated arguments."""
     fn = T["fn_text"].replace("(argumentValue: ArgumentValue): string", "(argumentValue)")
     kfn = T["key_fn_text"]
     kfn = re.sub(r"function getNetworkResponseKey\(\s*astNode: NormalizationLinkedField \| NormalizationScalarField,\s*\): NetworkResponseKey \{", "function getNetworkResponseKey(astNode) {", kfn)
     js = "const FIRST_SPLIT_KEY=%s, SECOND_SPLIT_KEY=%s, THIRD_SPLIT_KEY=%s;\n%s\n%s\n" % (
         json.dumps(T["FIRST_SPLIT_KEY"]), json.dumps(T["SECOND_SPLIT_KEY"]), json.dumps(T["THIRD_SPLIT_KEY"]), fn, kfn)
     js += """
-function revive(v){ if (v && typeof v==='object'){ if ('__int' in v) return Number(v.__int); if ('__cp' in v) return String.fromCodePoint(...v.__cp);
-  if (Array.isArray(v)) return v.map(revive); const o={}; for (const k of Object.keys(v)) o[k]=revive(v[k]); return o;} return v; }
 const lines=require('fs').readFileSync(0,'utf8').split('\\n').filter(x=>x.trim());
-for (const l of lines){ console.log(JSON.stringify(getNetworkResponseKey(revive(JSON.parse(l))))); }
+for (const l of lines){ const [name, text] = JSON.parse(l); let out;
+  try { const args = (0, eval)('(' + text + ')'); out = getNetworkResponseKey({fieldName: name, arguments: args}); }
+  catch (e) { out = 'JS-ERROR: ' + e.message; }
+  console.log(JSON.stringify(out)); }
 """
-    p = subprocess.run(["node", "-e", js], input="\n".join(json.dumps(a) for a in asts) + "\n", capture_output=True, text=True, timeout=60)
+    p = subprocess.run(["node", "-e", js], input="\n".join(json.dumps(list(a)) for a in items) + "\n", capture_output=True, text=True, timeout=60)
     if p.returncode != 0:
         raise Inconclusive("node evaluation of the extracted runtime functions failed: " + p.stderr[-400:])
     return [json.loads(x) for x in p.stdout.splitlines()]
 
 
+def build_alias_driver():
+    import shutil
+    d = os.path.join(NATIVE_DIR, "alias_driver")
+    shutil.copyfile(os.path.join(REPO, "Cargo.lock"), os.path.join(d, "Cargo.lock"))
+    from common import run as _run, env_offline as _env, BUILD as _B
+    rc, out, wall, to = _run(["cargo", "build", "--release"], cwd=d, timeout=2400,
+                             env=_env({"CARGO_TARGET_DIR": os.path.join(_B, "native_hooks"), "RUSTFLAGS": "--cfg kani"}))
+    if rc != 0:
+        raise Inconclusive("native driver alias_driver does not build against /repo (hooks on): " + out[-800:])
+    return os.path.join(_B, "native_hooks", "release", "alias_driver")
+
+
 def run_rust(binary, sels):
-    return [json.loads(x) for x in run_native(binary, [json.dumps(s) for s in sels])]
+    """[(compiler key, emitted normalization-AST argument text)]"""
+    out = [json.loads(x) for x in run_native(binary, [json.dumps(s) for s in sels])]
+    return [(o["key"], o["norm_args"]) for o in out]
+
+
+def keys_both(binary, T, sels):
+    rs = run_rust(binary, sels)
+    ts = run_ts(T, [(sj["field"], r[1]) for sj, r in zip(sels, rs)])
+    return [r[0] for r in rs], ts
 
 
 def extract_ts_text_only():
@@ -418,6 +472,19 @@ PROBES = [
 ]
 
 
+def raw_units(v):
+    """[(is_escape, char)] of a probe string given as code points (plain) or raw text"""
+    if "cp" in v:
+        return [(False, chr(x)) for x in v["cp"]]
+    out, raw, i = [], v["raw"], 0
+    while i < len(raw):
+        if raw[i] == "\\":
+            out.append((True, raw[i + 1])); i += 2
+        else:
+            out.append((False, raw[i])); i += 1
+    return out
+
+
 def pin(q, sel, pr):
     """constrain a symbolic selection (built with shape_of(pr)) to the concrete probe"""
     def pin_leaf(l, v):
@@ -425,9 +492,11 @@ def pin(q, sel, pr):
         if l.kind == "int": q.add(l.ints[0] == S(v["v"]))
         if l.kind == "bool": q.add(l.payload[0] == v["v"])
         if l.kind == "str":
-            q.add(l.slen == len(v["cp"]))
-            for c, x in zip(l.cps, v["cp"]):
-                q.add(c == S(chr(x) if x < 128 else "\\u{%x}" % x))
+            units = raw_units(v)
+            q.add(l.slen == len(units))
+            for c, e, k, (is_esc, ch) in zip(l.cps, l.ech, l.esc, units):
+                lit = S(ch if 32 <= ord(ch) < 127 and ch not in '"\\' else "\\u{%x}" % ord(ch))
+                q.add(k == is_esc, (e == lit) if is_esc else (c == lit))
     names = iter(sel.names[1:])
     leaves = iter(sel.leaves)
     q.add(sel.field == S(pr["field"]))
@@ -543,7 +612,13 @@ def psweep(name, items, build, portfolio=False, nproc=14):
     return total
 
 
-PROBES_IN_KNOWN_CLASS = [PROBES[4], PROBES[8], PROBES[9]]      # strings with sanitised characters: string-sanitisation class (collision test only)
+PROBES += [
+    {"field": "f", "args": [["a", {"k": "str", "raw": "x\\\"y"}]]},
+    {"field": "f", "args": [["a", {"k": "str", "raw": "l1\\nl2"}]]},
+    {"field": "f", "args": [["a", {"k": "str", "raw": "it's"}]]},
+]
+PROBES_WITH_ESCAPES = [PROBES[-3], PROBES[-2]]
+PROBES_IN_KNOWN_CLASS = [PROBES[-3], PROBES[-2], PROBES[-1], PROBES[4], PROBES[8], PROBES[9]]      # strings with sanitised characters: string-sanitisation class (collision test only)
 
 
 def main():
@@ -569,14 +644,17 @@ def main():
         return rp
 
     try:
-        binary = build_native("alias_driver")
+        binary = build_alias_driver()
+        LX = extract_lexer()
+        B["lexer"] = LX
         # ---- stage 0 (not solver-decided, a guard that does not depend on the translator): the probe inputs of the
         # translator validation are run through both real implementations; a compiler/runtime disagreement or an illegal
         # key on a probe outside the known classes is a reproduced violation whatever the source now looks like.
         T0 = extract_ts_text_only()
-        rk = run_rust(binary, PROBES)
-        tk = run_ts(T0, [to_ts_ast(p) for p in PROBES])
+        rk, tk = keys_both(binary, T0, PROBES)
         for pr, r_nat, t_nat in zip(PROBES, rk, tk):
+            if pr in PROBES_WITH_ESCAPES and "string-escape-sequence" in known:
+                continue
             # agreement is expected on every probe (none contains a non-BMP character), legality on every probe
             # (none contains a negative integer); only the collision test below skips the sanitised strings
             if r_nat != t_nat:
@@ -595,7 +673,7 @@ def main():
                 raise Inconclusive("encoding not regenerable: kept character class is not ASCII")
 
         # ---- translator validation: concrete probes through the encoding (solver) and through both real implementations
-        BV = {"args": 4, "namelen": 12, "strlen": 4, "objlen": 2}
+        BV = {"args": 4, "namelen": 12, "strlen": 4, "objlen": 2, "lexer": LX}
         for pr, r_nat, t_nat in zip(PROBES, rk, tk):
             q = Query("C12_validate", simple=True)
             sel = SSel(q, "p", shape_of(pr), BV, X, T)
@@ -667,7 +745,7 @@ def main():
             return (a, b)
         def replay_inj(m, objs):
             sjs = [sel_json(m, objs[0]), sel_json(m, objs[1])]
-            ks = run_rust(binary, sjs)
+            ks = [r[0] for r in run_rust(binary, sjs)]
             return (sjs[0] != sjs[1] and ks[0] == ks[1]), sjs, "compiler keys %r / %r" % (ks[0], ks[1])
         decide("C12_INJ", pairs, build_inj,
                {"string-sanitisation": lambda o: z3.Or(cls_string_nonalnum(o[0]), cls_string_nonalnum(o[1])),
@@ -682,7 +760,7 @@ def main():
         for c in consts_rust:
             if not re.fullmatch(r"[_0-9A-Za-z]*", c):
                 sj = {"field": "f", "args": [["a", {"k": "obj", "e": [["k", {"k": "var", "n": "v"}], ["m", {"k": "str", "cp": [32]}]]}]]}
-                k_ = run_rust(binary, [sj])[0]
+                k_ = run_rust(binary, [sj])[0][0]
                 if not GRAPHQL_NAME.match(k_):
                     violations.append(("a constant piece of the key (%r) is not made of name characters: %s -> %r" % (c, json.dumps(sj), k_), replay([sj], "illegal constant piece", "C12_LEGAL_const")))
         def build_legal(q, sh):
@@ -691,7 +769,7 @@ def main():
             return (a,)
         def replay_legal(m, objs):
             sj = sel_json(m, objs[0])
-            k = run_rust(binary, [sj])[0]
+            k = run_rust(binary, [sj])[0][0]
             return (not GRAPHQL_NAME.match(k)), [sj], "compiler key %r" % k
         decide("C12_LEGAL", one_arg, build_legal, {"negative-integer": lambda o: cls_negative_int(o[0])}, replay_legal,
                "the response key is not a legal GraphQL name")
@@ -703,7 +781,8 @@ def main():
         for rk_, tk_ in struct_pairs:
             if X[rk_] != T[tk_]:
                 sj = {"field": "f", "args": [["a", {"k": "obj", "e": [["k", {"k": "var", "n": "v"}], ["m", {"k": "null"}]]}], ["b", {"k": "int", "v": "1"}]]}
-                r1, t1 = run_rust(binary, [sj])[0], run_ts(T, [to_ts_ast(sj)])[0]
+                r1s, t1s = keys_both(binary, T, [sj])
+                r1, t1 = r1s[0], t1s[0]
                 if r1 != t1:
                     violations.append(("compiler and runtime use different structural constants (%s=%r vs %s=%r): %s -> %r vs %r" % (rk_, X[rk_], tk_, T[tk_], json.dumps(sj), r1, t1),
                                        replay([sj], "structural constants differ", "C12_AGREE_const")))
@@ -716,10 +795,10 @@ def main():
             return (a,)
         def replay_agree(m, objs):
             sj = sel_json(m, objs[0])
-            rk_ = run_rust(binary, [sj])[0]
-            tk_ = run_ts(T, [to_ts_ast(sj)])[0]
+            rks, tks = keys_both(binary, T, [sj])
+            rk_, tk_ = rks[0], tks[0]
             return rk_ != tk_, [sj], "compiler key %r, runtime key %r" % (rk_, tk_)
-        decide("C12_AGREE", one_arg, build_agree, {"non-bmp-character": lambda o: cls_astral(o[0])}, replay_agree,
+        decide("C12_AGREE", one_arg, build_agree, {"string-escape-sequence": lambda o: cls_escape(o[0])}, replay_agree,
                "the runtime computes a different response key than the compiler wrote")
     except Inconclusive as e:
         infra.append(str(e))
@@ -736,7 +815,7 @@ def main():
                               "get_aliased_mutation_field_name", "cache.ts getArgumentValueChunk", "cache.ts getNetworkResponseKey"],
         "extracted_rust": X, "extracted_ts": None if not T else {k: v for k, v in T.items() if not k.endswith("_text")},
         "source_fingerprint": repo_fingerprint([F_RS, F_MERGE, F_TS]),
-        "bounds": dict(B, integers="|n| < 10^18 as canonical decimal strings (compiler side); at most 15 characters in the agreement query (below 2^53)", code_points="SMT-LIB characters: code points 0..0x2FFFF without surrogates (BMP and planes 1-2)",
+        "bounds": dict(B, integers="|n| < 10^18 as canonical decimal strings (compiler side); at most 15 characters in the agreement query (below 2^53)", code_points="what the iso lexer accepts inside a string literal: the StringCharacters class (re-read from token_kind.rs) and two-character backslash escapes; \\\\uXXXX escapes outside the bound",
                        value_kinds="Variable, Integer, Boolean, Null, Enum, String, Object of leaves; Float and List outside the claim",
                        injectivity_pairs="both sides <= 1 argument (objects allowed)" + ("; plus 2 non-integer leaf arguments against <= 1 argument" if T_ == "thorough" else "")),
         "queries": queries, "queries_discharged": n_shape_q,
@@ -752,7 +831,7 @@ def main():
     }
     assumptions = [
         "names (field, argument, variable, enum value, object key) match the GraphQL Name grammar and are at most namelen characters",
-        "the artifact hands the argument values to the runtime unchanged (string escaping in the artifact text is property C13)",
+        "the runtime key is computed from the JavaScript value of the normalization-AST text the real compiler emits (a double-quoted literal around the raw string): in the encoding an escape evaluates to one non-word character; in replays node evaluates the real emitted text",
         "JS Number -> string equals the decimal rendering for |n| <= 2^53; larger integers, Float and List values are outside the claim",
         "only the direction 'same key => same field and arguments' plus legality and agreement; argument order is taken as written",
         "shape enumeration (argument count and value kinds) is done by the runner, the solver decides all names/numbers/characters per shape",
